@@ -180,11 +180,6 @@ theorem addTxIn_correct (c : Cache) (db : Db) (o : OutPoint) (e : Entry) (h : CI
 
 /-! ### F-C03-a: the rule before the fix breaks the invariant -/
 
-def fc03aEntry : Entry := ⟨50, [0x51], 1, true⟩
-def fc03aDb : Db := fun p => if p = (1, 0) then some fc03aEntry else none
-/-- (1,0) was loaded from the database and spent, not yet flushed. -/
-def fc03aCache : Cache := setSlot emptyCache (1, 0) (some (some ⟨fc03aEntry, true, true, false⟩))
-
 /-- With the pre-fix rule (always fresh), re-creating the outpoint over a cached
 spent-but-unflushed entry and spending it again leaves the stale database row visible:
 the state satisfies the cache invariant and BIP30 (the outpoint is absent), yet after
@@ -205,9 +200,6 @@ theorem fc03a_old_rule_breaks :
   · intro ce hce hm; simp at hce; subst hce; simp at hm
 
 /-! ### non-vacuity -/
-
-def exB1 : Block := ⟨1, ⟨1, [], [⟨50, [0x51]⟩, ⟨0, [0x6a]⟩]⟩, []⟩
-def exB2 : Block := ⟨2, ⟨2, [], [⟨50, [0x51]⟩]⟩, [⟨3, [(1, 0)], [⟨49, [0x52]⟩]⟩]⟩
 
 /-- A well-formed history exists: connect, flush, connect a spend, detach both, re-attach. -/
 example : HistOk [] [.connect exB1 true false, .flush .required false false,
